@@ -599,6 +599,47 @@ class Fn:
                     a = strip(a2)
                 else:
                     break
+        # `a || b || c` known true with all but one disjunct known false: the remaining one is true
+        # (and dually for a false conjunction)
+        for key, (pol, atom) in list(out.items()):
+            a = strip(atom)
+            if not (isinstance(a, dict) and a.get('k') == 'bin' and a['op'] in ('&&', '||')):
+                continue
+            if (a['op'] == '||') != bool(pol):
+                continue
+            parts = []
+            st = [a]
+            while st:
+                x = strip(st.pop())
+                if isinstance(x, dict) and x.get('k') == 'bin' and x['op'] == a['op']:
+                    st += [x['l'], x['r']]
+                else:
+                    parts.append(norm_cond(self.prog, x))
+            want = a['op'] == '||'       # the remaining part must be true for ||, false for &&
+            unknown = []
+            for pa, pp in parts:
+                k2 = dstr(pa)
+                val = None
+                if k2 in out:
+                    val = (out[k2][0] == pp)            # truth value of this part
+                else:
+                    # a single-definition boolean local standing for the part
+                    for k3, (p3, a3) in out.items():
+                        s3 = strip(a3)
+                        if isinstance(s3, dict) and s3.get('k') == 'var' and s3.get('vk') == 'local':
+                            init = self.single_def(s3['n'])
+                            if init is not None:
+                                ia, ip = norm_cond(self.prog, init)
+                                if dstr(ia) == k2:
+                                    val = ((p3 == ip) == pp)
+                if val is None:
+                    unknown.append((pa, pp))
+                elif val == want:
+                    unknown = None
+                    break
+            if unknown is not None and len(unknown) == 1:
+                pa, pp = unknown[0]
+                out.setdefault(dstr(pa), (pp if want else (not pp), pa))
         return out
 
     def edge_fact(self, bid, idx):
